@@ -25,4 +25,5 @@ CONSTANTS
 INVARIANTS TypeOK WindowShape WindowSufficient GapFreeInOrder NoDuplicate SkipMonotone EOSOnlyWhen CloseWakesAll2 NoLostWaiter2 PosConsistent FreeListSound ThreadsOK NobodyForgotten WokenOnce
 PROPERTIES RecentIsNewest BehindSkipsOnlyDropped CopyIndependent GrowOnlyWhenFull
 CONSTRAINT NobodyLeft
+CONSTRAINT JoinFirst
 CHECK_DEADLOCK FALSE
